@@ -239,8 +239,9 @@ class AdaptiveThresholder(SoftBitThresholder):
         """
         # Handle LLR inputs by converting to probability space for thresholding
         if self.input_type == InputType.LLR:
-            # Convert LLRs to probabilities using sigmoid: P(bit=0) = 1 / (1 + exp(-LLR))
-            x_prob = torch.sigmoid(x)
+            # Convert LLRs to P(bit=1) = 1 / (1 + exp(LLR)) (positive LLR means bit 0), as the
+            # other thresholders do, so that exceeding the threshold means bit 1
+            x_prob = torch.sigmoid(-x)
         else:
             x_prob = x
 
